@@ -172,7 +172,10 @@ def _validate_inventory_capacity(version, inventories):
     if isinstance(inventories, inv_obj.Inventory):
         inventories = [inventories]
     for inventory in inventories:
-        if op(inventory.capacity, 0):
+        # NOTE: capacity is truncated towards zero, so with an
+        # allocation_ratio below 1.0 a reserved value above total can still
+        # yield a capacity of 0; check reserved against total explicitly.
+        if inventory.reserved > inventory.total or op(inventory.capacity, 0):
             raise exc_class(
                 resource_class=inventory.resource_class,
                 resource_provider=inventory.resource_provider.uuid)
